@@ -825,12 +825,23 @@ func heldHunt(o Opts) {
 		Tried   int    `json:"tried"`
 	}
 	var r res
-	report := func(c Case) {
-		c.Outs = nil
-		c = shrinkIt(c)
+	// a failing input must REPLAY: the shrunk history is re-judged; if it no longer fails the
+	// unshrunk one is; if that does not fail either the observation was not reproducible (it is
+	// not reported and the search goes on)
+	report := func(c0 Case) bool {
+		c0.Outs = nil
+		c := shrinkIt(c0)
 		f, at := heldCheck(c)
+		if f == "" {
+			c = c0
+			if f, at = heldCheck(c); f == "" {
+				return false
+			}
+		}
 		r.Found, r.Failure, r.At = true, f, at
+		c.Outs = nil
 		r.Case = c
+		return true
 	}
 	done := false
 	if o.Replay != "" {
@@ -846,9 +857,9 @@ func heldHunt(o Opts) {
 			for _, c := range rp.Cases {
 				r.Tried++
 				if f, _ := heldCheck(c); f != "" {
-					report(c)
-					done = true
-					break
+					if done = report(c); done {
+						break
+					}
 				}
 			}
 		}
@@ -860,8 +871,7 @@ func heldHunt(o Opts) {
 			c, _ := genHeld(rng.Split(), tn, nil)
 			r.Tried++
 			if f, _ := heldCheck(c); f != "" {
-				report(c)
-				done = true
+				done = report(c)
 			}
 		}
 	}
